@@ -118,7 +118,7 @@ def sweep(algs, tier, seed, report, kinds, budget=None):
     corr_diffs, violations = [], []
     sampled = set()
     per_alg = budget or (2500 if tier == "quick" else None)
-    n_random = 600 if tier == "quick" else 6000
+    n_random = 600 if tier == "quick" else 20000
     for alg in algs:
         cases = []
         scope = gen.prop_scope(alg)
